@@ -1,6 +1,7 @@
 ---------------------------- MODULE MC_Dispatch ----------------------------
 EXTENDS Dispatch
-HandlesDef == [r \in {"r1", "r2", "r3"} |-> CASE r = "r1" -> {"A", "B"} [] r = "r2" -> {"B", "C"} [] r = "r3" -> {"C", "D"}]
+\* r1b is a second instance of r1's class: same handler functions, another owner
+HandlesDef == [r \in {"r1", "r1b", "r2", "r3"} |-> CASE r = "r1" -> {"A", "B"} [] r = "r1b" -> {"A", "B"} [] r = "r2" -> {"B", "C"} [] r = "r3" -> {"C", "D"}]
 
 GraphView == <<reg, last>>
 =============================================================================
